@@ -183,6 +183,8 @@ func generated(r *hx.Rand) []string {
 			fmt.Sprintf("(CallExpr (Binding \"fn\" %s) _)", q),
 			q,
 			fmt.Sprintf("(Or %s)", q),
+			fmt.Sprintf("(Binding \"s\" %s)", q),
+			fmt.Sprintf("(TypeAssertExpr _ %s)", q),
 			fmt.Sprintf("(Or (CallExpr %s _) (GoStmt (CallExpr %s _)))", q, q),
 			fmt.Sprintf("(CallExpr (Or %s (Symbol %q)) _)", q, syms[r.Intn(len(syms))]),
 			fmt.Sprintf("(CallExpr (Symbol (Or %q %q)) _)", s, syms[r.Intn(len(syms))]),
@@ -362,6 +364,19 @@ import "example.com/m/lib2"
 var X = lib2.B{}
 
 func conv(x any) { _ = x.(lib2.B); _ = lib2.B(X) }
+`)
+	// imports lib (and uses another object of it) but writes lib.T only through the alias lib2.B: the index knows
+	// lib.T, yet no identifier of the package resolves to it
+	hx.WriteFile(filepath.Join(dir, "app3", "app3.go"), `package app3
+
+import (
+	"example.com/m/lib"
+	"example.com/m/lib2"
+)
+
+var Y = lib2.B{}
+
+func conv(x any) int { _ = x.(lib2.B); _ = lib2.B(Y); var z lib2.B; _ = z; return lib.C + lib.F(1) }
 `)
 	// a package that declares symbols the patterns name (outside the property's premise; counted, not judged)
 	hx.WriteFile(filepath.Join(dir, "selfuse", "selfuse.go"), `package selfuse
@@ -640,7 +655,7 @@ func main() {
 			}
 		}
 	}
-	check(mod, "cache1", "./app", "./app2", "./selfuse")
+	check(mod, "cache1", "./app", "./app2", "./app3", "./selfuse")
 	if *real != "" {
 		check(*repo, "cache2", strings.Split(*real, ",")...)
 	}
